@@ -9,6 +9,8 @@ From GI Require Import Lib.Bytes Gen.TxtarWriteConsts Txtar.Txtar
   TxtarWrite.SavedirFacts TxtarWrite.NameFacts TxtarWrite.SortFacts TxtarWrite.WalkFacts
   TxtarWrite.Symlink TxtarWrite.SymlinkFacts TxtarWrite.SymlinkPlain
   TxtarWrite.Fd TxtarWrite.FdFacts TxtarWrite.Cli TxtarWrite.CliFacts.
+From GI Require Import Lib.GoSem Lib.GoSemWorld TxtarWrite.SrcLib TxtarWrite.SrcWorld Gen.TxtarWriteWorldSrc
+  TxtarWrite.SrcWorldFacts TxtarWrite.SrcWalk TxtarWrite.SrcWalkFacts Gen.TxtarWriteSrc TxtarWrite.SrcFacts.
 Import ListNotations.
 
 (* A cleaned name that the guard of Write lets through (not absolute, not "..", no
@@ -326,3 +328,173 @@ Theorem C15_cli_roundtrip : forall fl t cwd fs dir cargs d0 xargs inp stdin,
           (x = Dir /\ proper q (resolve cwd dir ++ p)))).
 Proof. exact cli_roundtrip. Qed.
 Print Assumptions C15_cli_roundtrip.
+
+(* ------------------------------------------------------------------------------------------
+   THE SOURCE, TRANSLATED.  Gen/TxtarWriteWorldSrc.v is txtar.Write (whole), txtar.ParseFile,
+   isAbs and the walk function of cmd/txtar-c translated from the Go source text by
+   harness/go2coq (world mode) on every run: state-passing functions over an ABSTRACT record OS
+   of operating-system operations (os.MkdirAll, os.OpenFile, File.Write, File.Close,
+   os.ReadFile), of which nothing is assumed.  The theorems below are about those generated
+   terms; an edit of the source changes the terms and re-opens the proofs. *)
+
+Theorem C15_source_isabs_eq : forall p, tw_isAbs p = Ok (is_abs p).
+Proof. exact SrcWorldFacts.src_isAbs_eq. Qed.
+Print Assumptions C15_source_isabs_eq.
+
+(* txtar.Write as translated IS the reference program write_ops (SrcWorld.v), for every record of
+   operations, every world, every archive and directory: per entry, clean + containment decision
+   -> the error without touching anything; else MkdirAll of the parent, the exclusive create,
+   one Write of all the data, Close; the first error stops.  It never panics on a non-nil
+   archive and needs no iteration bound. *)
+Theorem C15_source_write_eq : forall (OS : fs_ops) w a dir,
+  tw_Write OS w (Some a) dir = Ok (write_ops OS dir (files a) w).
+Proof. exact src_Write_eq. Qed.
+Print Assumptions C15_source_write_eq.
+
+(* a nil archive pointer is a panic, as in Go *)
+Theorem C15_source_write_nil_panics : forall (OS : fs_ops) w dir, tw_Write OS w None dir = Panic.
+Proof. exact src_Write_nil. Qed.
+Print Assumptions C15_source_write_nil_panics.
+
+(* WHICH calls, in WHICH order, with WHICH arguments: over the logging operations [traced OS] the
+   translated Write returns what it returns over OS, and the log grows by the entries' calls in
+   order, each entry one of the four shapes of entry_trace (nothing; MkdirAll failed; MkdirAll,
+   OpenFile failed; MkdirAll, OpenFile, Write, Close), up to the first entry that does not end
+   well -- with the paths Dir(Join(dir, Clean(name))) / Join(dir, Clean(name)), the permission
+   bits and the O_WRONLY|O_CREATE|O_EXCL flag word of the regenerated constants. *)
+Theorem C15_source_write_calls : forall (OS : fs_ops) w tr a dir,
+  exists t,
+    tw_Write (traced OS) (w, tr) (Some a) dir =
+      Ok ((fst (write_ops OS dir (files a) w), tr ++ t), snd (write_ops OS dir (files a) w)) /\
+    write_trace dir (files a) t.
+Proof. exact src_Write_calls. Qed.
+Print Assumptions C15_source_write_calls.
+
+(* an entry whose cleaned name the guard rejects: the error, and NO call at all, whatever the
+   operating system would have answered *)
+Theorem C15_source_write_rejected_untouched : forall (OS : fs_ops) w c n d rest dir,
+  rejected the_guard (clean (from_slash n)) = true ->
+  tw_Write OS w (Some {| comment := c; files := (n, d) :: rest |}) dir = Ok (w, outside_err n).
+Proof. exact src_Write_rejected_first. Qed.
+Print Assumptions C15_source_write_rejected_untouched.
+
+(* descriptors, on the translated function, for EVERY behaviour of the operating system: at
+   every moment of a call of Write at most one descriptor is open, and none when it returns *)
+Theorem C15_source_write_fd_bounded : forall (OS : fs_ops) w a dir w' tr e,
+  tw_Write (traced OS) (w, []) (Some a) dir = Ok ((w', tr), e) ->
+  fds_after 0 tr = Some 0 /\
+  forall t1 t2, tr = t1 ++ t2 -> exists n, fds_after 0 t1 = Some n /\ n <= 1.
+Proof. exact src_Write_fd_bounded. Qed.
+Print Assumptions C15_source_write_fd_bounded.
+
+(* THE TIE to the model: the translated Write run over the file-system model of TxtarWrite.v
+   ([model_fs cwd]: the operations interpreted by mkdir_all / os_open / os_write) is the model's
+   write -- the same file system afterwards, and the error it returns decodes to the model's
+   verdict.  Every theorem above about [write] is therefore a theorem about the source. *)
+Theorem C15_source_write_model : forall cwd fs dir a,
+  exists e, tw_Write (model_fs cwd) fs (Some a) dir = Ok (fst (write cwd fs dir a), e) /\
+            dec_werr e = snd (write cwd fs dir a).
+Proof. exact src_Write_model. Qed.
+Print Assumptions C15_source_write_model.
+
+(* ... restated: containment, *)
+Theorem C15_source_write_contained : forall cwd fs dir a fs' e,
+  is_abs dir = true -> tw_Write (model_fs cwd) fs (Some a) dir = Ok (fs', e) ->
+  forall p, get fs' p <> get fs p ->
+    get fs p = None /\
+    (within (resolve cwd dir) p \/ (get fs' p = Some Dir /\ within p (resolve cwd dir))).
+Proof. exact src_Write_contained. Qed.
+Print Assumptions C15_source_write_contained.
+
+(* never overwrites, *)
+Theorem C15_source_write_never_overwrites : forall cwd fs dir a fs' e,
+  tw_Write (model_fs cwd) fs (Some a) dir = Ok (fs', e) ->
+  forall p x, get fs p = Some x -> get fs' p = Some x.
+Proof. exact src_Write_never_overwrites. Qed.
+Print Assumptions C15_source_write_never_overwrites.
+
+(* a nil error means no name was absolute or climbed out, *)
+Theorem C15_source_write_rejects : forall cwd fs dir a fs',
+  tw_Write (model_fs cwd) fs (Some a) dir = Ok (fs', WNil) ->
+  forall n d, In (n, d) (files a) ->
+    is_abs n = false /\ clean n <> dotdot /\ has_prefix dotdot_sep (clean n) = false.
+Proof. exact src_Write_rejects. Qed.
+Print Assumptions C15_source_write_rejects.
+
+(* every file holds the entry's data, *)
+Theorem C15_source_write_contents : forall cwd fs dir a fs',
+  tw_Write (model_fs cwd) fs (Some a) dir = Ok (fs', WNil) ->
+  forall n d, In (n, d) (files a) -> get fs' (resolve cwd (join dir (clean n))) = Some (File d).
+Proof. exact src_Write_contents. Qed.
+Print Assumptions C15_source_write_contents.
+
+(* and an existing target is an error *)
+Theorem C15_source_write_existing_is_error : forall cwd fs dir a fs',
+  tw_Write (model_fs cwd) fs (Some a) dir = Ok (fs', WNil) ->
+  forall n d, In (n, d) (files a) -> get fs (resolve cwd (join dir (clean n))) = None.
+Proof. exact src_Write_existing_is_error. Qed.
+Print Assumptions C15_source_write_existing_is_error.
+
+(* txtar.ParseFile as translated: ReadFile, then Parse of everything it returned *)
+Theorem C15_source_parse_file_eq : forall (OS : fs_ops) w file,
+  tw_ParseFile OS w file = Ok (parse_file_ops OS file w).
+Proof. exact src_ParseFile_eq. Qed.
+Print Assumptions C15_source_parse_file_eq.
+
+(* The walk function of cmd/txtar-c as translated (the literal main hands to filepath.Walk, a
+   function of the archive it appends to, of dir, of the two flags and of its parameters) IS the
+   reference walk_fn_ops (SrcWorld.v), for every record of operations: an incoming error is
+   handed back; the root is passed over; a dot name is skipped unless -a (SkipDir for a
+   directory); a non-regular file is passed over; the file is read; then the model's
+   [file_entry] decides on the name relative to the root -- invalid UTF-8 dropped, the final
+   newline added, a file with a marker line quoted with -quote (and its "unquote NAME" comment
+   line) or dropped -- and the entry is appended with its name through ToSlash. *)
+Theorem C15_source_walkfn_eq : forall (OS : fs_ops) fl w a dir path info err,
+  tc_main_walkfn OS (f_quote fl) (f_all fl) w (Some a) dir path info err =
+  Ok (match walk_fn_ops OS fl w a dir path info err with (w', a', e) => (w', Some a', e) end).
+Proof. exact src_walkfn_eq. Qed.
+Print Assumptions C15_source_walkfn_eq.
+
+(* txtar-c between flag.Parse and Format, with the translated walk function: the hand-modelled
+   filepath.Walk (SrcWalk.walk_root) over a tree in Walk's order, reading the files from a file
+   system that holds them, builds exactly the model's archive savedir_tree (any directory
+   argument that does not clean to "/") *)
+Theorem C15_source_savedir_walk_eq : forall cwd fl d0 fs,
+  bytes_eqb (clean d0) [SEP] = false ->
+  forall rt, rnode_walkable (RDir rt) -> readable cwd d0 fs [] (RDir rt) ->
+  src_savedir_walk cwd fl fs (clean d0) rt = Ok ((fs, Some (savedir_tree fl rt)), WNil).
+Proof. exact src_savedir_walk_eq. Qed.
+Print Assumptions C15_source_savedir_walk_eq.
+
+(* THE ROUND TRIP ON THE TRANSLATED PIECES: the translated walk function under Walk builds an
+   archive a; the translated Write, given Parse (Format a), succeeds over the file-system model;
+   conclusion as in C15_savedir_extract.  Hand-modelled glue that remains: filepath.Walk's
+   traversal (SrcWalk.v), flag parsing and the main functions (Cli.v), x/tools Format, the file
+   system. *)
+Theorem C15_source_roundtrip : forall fl rt cwdc fsc d0 cwd fs xdir,
+  bytes_eqb (clean d0) [SEP] = false ->
+  rnode_walkable (RDir rt) -> readable cwdc d0 fsc [] (RDir rt) ->
+  Forall real cwd -> Forall nul_free cwd -> has_nul xdir = false -> tree_ok (rflat [] (RDir rt)) ->
+  dir_exists fs (resolve cwd xdir) ->
+  (forall q, beneath (resolve cwd xdir) q -> get fs q = None) ->
+  exists a fs',
+    src_savedir_walk cwdc fl fsc (clean d0) rt = Ok ((fsc, Some a), WNil) /\
+    tw_Write (model_fs cwd) fs (go_txtar_Parse (format a)) xdir = Ok (fs', WNil) /\
+    (forall p d cl n s, In (p, d) (rflat [] (RDir rt)) -> savedir_entry fl (p, d) = Some (cl, (n, s)) ->
+       get fs' (resolve cwd xdir ++ p) = Some (File s) /\
+       restored (comment (parse (format a))) n s = Some (fix_nl d)) /\
+    (forall q x, beneath (resolve cwd xdir) q -> get fs' q = Some x ->
+       exists p d e, In (p, d) (rflat [] (RDir rt)) /\ savedir_entry fl (p, d) = Some e /\
+         ((q = resolve cwd xdir ++ p /\ exists s, x = File s) \/
+          (x = Dir /\ proper q (resolve cwd xdir ++ p)))).
+Proof. exact src_roundtrip. Qed.
+Print Assumptions C15_source_roundtrip.
+
+(* the earlier partial translation (Gen/TxtarWriteSrc.v: the statements of Write's loop body in
+   front of os.MkdirAll, pure mode): they return the error exactly for the names the property
+   excludes *)
+Theorem C15_source_guard_rejects : forall dir nd,
+  src_Write_before_os_MkdirAll dir nd = Ok (Return true) <->
+  (is_abs (clean (fst nd)) = true \/ clean (fst nd) = dotdot \/ has_prefix dotdot_sep (clean (fst nd)) = true).
+Proof. exact src_Write_guard_rejects. Qed.
+Print Assumptions C15_source_guard_rejects.
